@@ -964,11 +964,11 @@ func (a *Analysis) canon(f *bddNode) string {
 // time terms:  base + sum k_i * tol_i + const
 
 type TimeTerm struct {
-	Base  string
-	BaseV ssa.Value
-	Coef  map[string]int64 // duration access path -> coefficient
-	Const int64            // nanoseconds
-	Opaque bool            // some duration operand could not be normalised
+	Base   string
+	BaseV  ssa.Value
+	Coef   map[string]int64 // duration access path -> coefficient
+	Const  int64            // nanoseconds
+	Opaque bool             // some duration operand could not be normalised
 }
 
 func (t *TimeTerm) String() string {
